@@ -1,4 +1,5 @@
 import Clikit.Lemmas.Section
+import Clikit.Lemmas.SectionIndent
 import Clikit.Gen.C15
 /-!
 # C15 - section outputs keep the screen equal to the stacked section contents
@@ -219,7 +220,88 @@ theorem clearN_beyond_reachable (w : Nat) (hw : 1 ≤ w) (ops : List Op) (newer 
       (clearSec w newer s n).2 = (clearSec w newer s 0).2) :=
   clearN_beyond w hw newer s n hn ((screen_refines w hw ops []).2.2 s hs)
 
+/-! ## sections with indentation
+
+`Model/SectionIndent.lean`: a section inherits the indentation of its output at creation and can change
+it later; the recorded lines carry the indentation, an empty line is printed without it. -/
+
+/-- **An indented history is the base history on the padded lines.**  The sections (contents and row
+counters) after any history with indentation are those of the base model after `flat` of it (every
+written line behind the blanks of the section's indentation at that moment); and unless an empty
+line is written at a positive indentation (`blankSafe`) the streams are the same, command for command. -/
+theorem indent_simulates (ansi : Bool) (w : Nat) (iops : List IOp) :
+    (runI ansi w { secs := [], ind := [] } iops).1.secs = (run ansi w [] (flat [] iops)).1 ∧
+    (blankSafe [] iops = true →
+      (runI ansi w { secs := [], ind := [] } iops).2 = (run ansi w [] (flat [] iops)).2) :=
+  runI_sim ansi w iops { secs := [], ind := [] }
+
+/-- **The screen shows the stacked (indented) contents.**  `screen_refines` for histories over sections
+with indentation - inherited at creation, changed in the middle -: the screen is `above` followed by
+the contents of all sections in creation order (a redrawn section is NOT indented again: it shows what
+it holds), the cursor is below, the row counters are exact. -/
+theorem screen_refines_indented (w : Nat) (hw : 1 ≤ w) (iops : List IOp) (above : List Str)
+    (hs : blankSafe [] iops = true) :
+    let r := runI true w { secs := [], ind := [] } iops
+    let scr := execs w { rows := above, cur := above.length } r.2
+    scr.rows = above ++ stacked w r.1.secs ∧
+    scr.cur = scr.rows.length ∧
+    ∀ s ∈ r.1.secs, s.rows = (linesRows w s.content).length := by
+  have h := indent_simulates true w iops
+  simp only [h.1, h.2 hs]
+  exact screen_refines w hw (flat [] iops) above
+
+/-- The contents of indented sections are what the operations ask for: the written lines behind the
+indentation the section had when they were written. -/
+theorem contents_spec_indented (w : Nat) (iops : List IOp) :
+    (runI true w { secs := [], ind := [] } iops).1.secs.reverse.map (·.content)
+      = (flat [] iops).foldl specStep [] := by
+  rw [(indent_simulates true w iops).1]
+  exact contents_spec w (flat [] iops)
+
+/-- A history without any indentation is the base history: all theorems above speak about what the
+driver computes for it. -/
+theorem indent_free_is_base (ansi : Bool) (w : Nat) (ops : List Op) : ∀ (secs : List Sec),
+    (runI ansi w { secs := secs, ind := [] } (ops.map .op)).1.secs = (run ansi w secs ops).1 ∧
+    (runI ansi w { secs := secs, ind := [] } (ops.map .op)).2 = (run ansi w secs ops).2 := by
+  induction ops with
+  | nil => intro secs; exact ⟨rfl, rfl⟩
+  | cons o r ih =>
+    intro secs
+    have h0 : indOf [] (target o) = 0 := by simp [indOf]
+    have hstep : stepI ansi w secs 0 o = step ansi w secs o := by
+      rw [stepI_eq ansi w secs 0 o (by simp [blankSafeOp]), step_padOp_zero]
+    simp only [List.map_cons, runI, stepIO, run, h0, hstep]
+    exact ⟨(ih _).1, by rw [(ih _).2]⟩
+
+/-- The decider `blankSafe` the driver evaluates means what it says for a single operation. -/
+theorem blankSafe_decides (n : Nat) (o : Op) :
+    blankSafeOp n o = true ↔ (n = 0 ∨ ∀ l ∈ opLines o, l ≠ []) := by
+  simp only [blankSafeOp, Bool.or_eq_true, beq_iff_eq, List.all_eq_true, Bool.not_eq_true',
+    List.isEmpty_eq_false_iff]
+
 /-! ## non-vacuity -/
+
+/-- Width 10: the older section has indentation 2 (inherited), the newer none; a write to the older
+one prints its line behind two blanks and re-prints the newer section as it is - NOT indented again. -/
+private def demoI : List IOp :=
+  [.create 2, .create 0, .op (.write 1 ["qrs".toList]), .op (.write 0 ["lmn".toList]),
+   .indent 1 3, .op (.write 1 ["x".toList])]
+
+example : (runI true 10 { secs := [], ind := [] } demoI).2 =
+    [.print "qrs".toList, .up 1, .eraseBelow, .print "  lmn".toList, .print "qrs".toList,
+     .print "   x".toList] := by decide
+
+example : blankSafe [] demoI = true ∧
+    flat [] demoI = [.create, .create, .write 1 ["qrs".toList], .write 0 ["  lmn".toList],
+                     .write 1 ["   x".toList]] := by decide
+
+example := screen_refines_indented 10 (by decide) demoI [] (by decide)
+
+/-- an empty line at a positive indentation: recorded as blanks, printed empty (`blankSafe` is not
+constantly true) -/
+example : blankSafe [] [.create 2, .op (.write 0 [[]])] = false ∧
+    (runI true 10 { secs := [], ind := [] } [.create 2, .op (.write 0 [[]])]) =
+      ({ secs := [{ content := ["  ".toList], rows := 1 }], ind := [2] }, [.print []]) := by decide
 
 private def a7 : Str := "aaaaaaa".toList
 private def b3 : Str := "bbb".toList
